@@ -162,7 +162,13 @@ func (w *World) caseSensitiveTests(fn *ssa.Function, in func(*ssa.BasicBlock) bo
 				}
 				if takesBytes && cal.Signature.Results().Len() == 1 && isBool(cal.Signature.Results().At(0).Type()) {
 					seen[cal] = true
-					bad = append(bad, w.caseSensitiveTests(cal, func(*ssa.BasicBlock) bool { return true }, depth+1, seen, nTests)...)
+					inCal := func(*ssa.BasicBlock) bool { return true }
+					if w.htmlType1 != nil {
+						if sub, k := blocksUnderBlockType(cal, *w.htmlType1); k > 0 {
+							inCal = func(b *ssa.BasicBlock) bool { return sub[b] }
+						}
+					}
+					bad = append(bad, w.caseSensitiveTests(cal, inCal, depth+1, seen, nTests)...)
 				}
 			}
 		}
@@ -198,41 +204,17 @@ func ruleHTMLBlockEndCaseInsensitive(w *World, r *Report) {
 			r.Unknown("ast.HTMLBlockType1", "", "constant not found")
 			return
 		}
-		// blocks of the type-1 arm
-		arm := map[*ssa.BasicBlock]bool{}
-		for _, b := range cont.Blocks {
-			iff, ok := b.Instrs[len(b.Instrs)-1].(*ssa.If)
-			if !ok {
-				continue
-			}
-			bo, ok := iff.Cond.(*ssa.BinOp)
-			if !ok || bo.Op != token.EQL {
-				continue
-			}
-			var c int64
-			var isC bool
-			if c, isC = constInt(bo.Y); !isC {
-				c, isC = constInt(bo.X)
-			}
-			if !isC || c != type1 {
-				continue
-			}
-			if !strings.Contains(typeShort(bo.X.Type()), "HTMLBlockType") {
-				continue
-			}
-			for _, x := range cont.Blocks {
-				if edgeDominates(b, 0, x) {
-					arm[x] = true
-				}
-			}
-		}
+		// the blocks that can run when the block's type is 1: every comparison of a value of the block-type type with a
+		// constant is decided, other branches are followed both ways
+		arm, nTypeTests := blocksUnderBlockType(cont, type1)
 		key := typeShort(t) + ".Continue: type-1 end condition is case-insensitive"
-		if len(arm) == 0 {
+		if nTypeTests == 0 {
 			r.Unknown(key, w.FnPos(cont), "no arm selected by HTMLBlockType1 found")
 			continue
 		}
 		n++
 		nTests := 0
+		w.htmlType1 = &type1
 		bad := w.caseSensitiveTests(cont, func(b *ssa.BasicBlock) bool { return arm[b] }, 0, map[*ssa.Function]bool{}, &nTests)
 		switch {
 		case len(bad) > 0:
@@ -244,6 +226,60 @@ func ruleHTMLBlockEndCaseInsensitive(w *World, r *Report) {
 		}
 	}
 	r.Expect("HTML block parsers", n, 1)
+}
+
+// blocksUnderBlockType: the blocks of fn reachable from its entry when every value of the HTML block-type type equals k
+// (in Continue and the helpers it hands the type to, such a value is the type of the block being continued); the second
+// result counts the comparisons that were decided.
+func blocksUnderBlockType(fn *ssa.Function, k int64) (map[*ssa.BasicBlock]bool, int) {
+	out := map[*ssa.BasicBlock]bool{}
+	if len(fn.Blocks) == 0 {
+		return out, 0
+	}
+	nTests := 0
+	decide := func(iff *ssa.If) (bool, bool) {
+		bo, ok := iff.Cond.(*ssa.BinOp)
+		if !ok || (bo.Op != token.EQL && bo.Op != token.NEQ) {
+			return false, false
+		}
+		x, y := bo.X, bo.Y
+		c, isC := constInt(y)
+		if !isC {
+			c, isC = constInt(x)
+			x = y
+		}
+		if !isC || !strings.Contains(typeShort(x.Type()), "HTMLBlockType") {
+			return false, false
+		}
+		if _, isConst := x.(*ssa.Const); isConst {
+			return false, false
+		}
+		return (c == k) == (bo.Op == token.EQL), true
+	}
+	work := []*ssa.BasicBlock{fn.Blocks[0]}
+	out[fn.Blocks[0]] = true
+	for len(work) > 0 {
+		b := work[len(work)-1]
+		work = work[:len(work)-1]
+		succs := b.Succs
+		if iff, ok := b.Instrs[len(b.Instrs)-1].(*ssa.If); ok {
+			if truth, known := decide(iff); known {
+				nTests++
+				if truth {
+					succs = b.Succs[:1]
+				} else {
+					succs = b.Succs[1:2]
+				}
+			}
+		}
+		for _, s := range succs {
+			if !out[s] {
+				out[s] = true
+				work = append(work, s)
+			}
+		}
+	}
+	return out, nTests
 }
 
 func constIntOfObj(w *World, pkg, name string) (int64, bool) {
